@@ -736,6 +736,9 @@ class Evolution(pg.DNAGenerator):
           'the initial population size (through the second item of the '
           '`population_init` tuple) or reduce the number of parallel sampling '
           'clients.')
+    # NOTE: the reproduction may return its input list (e.g. `Identity`): the
+    # population must not be written to.
+    children = list(children)
     for i, child in enumerate(children):
       # NOTE(daiyip): If a child's feedback sequence number exists, it's
       # an existing DNA from the population, in such case, we should clone
